@@ -92,11 +92,10 @@ def written_names(m):
         if d[0] == "s" and l is None and r is None:
             if not d[1].startswith("'"):
                 acc.add(d[1])
-        agg = d[0] == "op" and d[1] in ("SUM", "AVG", "LEN", "FLOOR", "CEIL")
         for c in (l, r):
             if c is not None:
-                agg = walk(c, acc) or agg
-        return agg
+                walk(c, acc)
+        return False
     out = []
     for _, node in m["ctcs"]:
         acc = set()
@@ -163,10 +162,8 @@ def graph_wf(fm, written=None):
         else:
             try:
                 got = sorted(c.get_features())
-                agg = {ASTOperation.LEN, ASTOperation.FLOOR, ASTOperation.CEIL, ASTOperation.SUM, ASTOperation.AVG}
-                if not any(op in agg for op in c.ast.get_operators()):
-                    if got != sorted(set(leaf_names(c.ast.root))):
-                        fails.append(("ctc:get_features", f"{got}"))
+                if got != sorted(set(leaf_names(c.ast.root))):
+                    fails.append(("ctc:get_features", f"{got}"))
             except Exception as e:  # noqa: BLE001
                 fails.append(("ctc:get_features-raises", type(e).__name__))
     return fails
@@ -232,7 +229,10 @@ def write_xdoc(d, path, pretty=False, extra_ws=False):
     root = xdoc_to_et(d)
     if pretty or extra_ws:
         ET.indent(root, space="  " if not extra_ws else "\t  ")
-    ET.ElementTree(root).write(path, encoding="UTF-8", xml_declaration=True)
+    data = ET.tostring(root, encoding="UTF-8", xml_declaration=True)
+    # ElementTree leaves a carriage return raw inside element text, where a parser reads it back as a line feed
+    with open(path, "wb") as fh:
+        fh.write(data.replace(b"\r", b"&#13;"))
 
 
 # ------------------------------------------------------------------ structural comparison of specs
